@@ -41,11 +41,14 @@ PROPS = {
         level_text='Unbounded deductive proof (Verus/Z3), for ArithmeticGate and ConstantGate in every parameterisation (symbolic num_ops / num_consts) over an '
                    'abstract commutative ring, that the extension-field, packed/base and in-circuit evaluators all return ONE ring-generic specification '
                    'expression per constraint, exactly num_constraints() of them, with all wire indexing in bounds; plus the pinning lemma (constraint zero '
-                   '<==> output wire equals the computed value). The other gates are covered by a bounded stand-in only (labelled bounded).',
+                   '<==> output wire equals the computed value). The other gates, the filtered in-circuit evaluator and the generators are covered by a bounded stand-in '
+                   'only (labelled bounded); Gate::eval_filtered (native) is proved under C02.',
         level_note='Trusted: Verus+Z3; abstract ring for scalar/extension/packed fields (T6); CircuitBuilder arithmetic contracts (T10d). Other gates '
                    '(BaseSum, Exponentiation, RandomAccess, Reducing*, MulExtension, ArithmeticExtension, Poseidon*, CosetInterpolation, Lookup*) and '
-                   'eval_filtered/compute_filter: bounded harness only.',
-        remainder=['all gates other than ArithmeticGate and ConstantGate (bounded harness only)', 'generators run_once (closures over the witness)', 'eval_filtered / compute_filter'],
+                   'eval_filtered_circuit/compute_filter: bounded harness only (c07_gates: 18 gate instances x {standard, 37-routed-wire} configuration: extension vs '
+                   'base-batch vs in-circuit evaluators incl. filtered with 1 and 2 selectors, declared constraint count, and for every wire a generator writes: the '
+                   'generated row satisfies the gate and the wire cannot be changed by +1, -1, 12345 without violating a constraint).',
+        remainder=['all gates other than ArithmeticGate and ConstantGate (bounded harness only)', 'generators run_once (closures over the witness)', 'eval_filtered_circuit / compute_filter'],
     ),
     'C09': dict(
         title='STARK proofs are accepted exactly for traces that satisfy the constraints',
@@ -54,9 +57,13 @@ PROPS = {
         vspecs=['contracts/C09/constraint_consumer.vspec', 'contracts/C09/stark_degree.vspec'],
         level_text='Unbounded deductive proof (Verus/Z3) that ConstraintConsumer accumulates acc_i*alpha_i + c*filter with filter = 1, z_last, L_first, L_last for '
                    'constraint / constraint_transition / constraint_first_row / constraint_last_row respectively (a swapped or missing filter fails the '
-                   'postcondition). The STARK verifier/prover themselves (iterator pipelines) are covered by a bounded stand-in only.',
+                   'postcondition); Stark::quotient_degree_factor is 0 for degree 0, 1 for degrees 1 and 2 and degree-1 above (a STARK with constraints always gets '
+                   'a quotient wide enough for its declared degree) and num_quotient_polys is that times num_challenges. The STARK verifier/prover themselves '
+                   '(iterator pipelines) are covered by a bounded stand-in only.',
         level_note='Trusted: Verus+Z3; abstract ring for packed fields; lane-wise scalar multiplication uninterpreted. verify_stark_proof_with_challenges, '
-                   'compute_quotient_polys, eval_vanishing_poly: bounded harness only (flat_map/chunks/Option plumbing outside the Verus subset).',
+                   'compute_quotient_polys, eval_vanishing_poly, get_challenges: bounded harness only (flat_map/chunks/Option plumbing outside the Verus subset): '
+                   'a Fibonacci STARK and a family of counter STARKs (2..40 columns, declared degree 1..3, 8..128 rows): honest traces accepted; corrupted first / '
+                   'interior / last rows, false public inputs (also pairs of errors that would cancel under a shared weight) and altered proof elements never accepted.',
         remainder=['starky verifier / prover / vanishing polynomial (bounded harness only)', 'eval_l_0_and_l_last'],
     ),
     'C15': dict(
@@ -69,7 +76,7 @@ PROPS = {
                    'interpolation, bit reversal and transposes are covered by a bounded stand-in only (roots-of-unity developments are days of proof '
                    'engineering; see DESIGN.md).',
         level_note='Trusted: Verus+Z3; usize::trailing_zeros std semantics. Everything except log2_strict is BOUNDED evidence (sizes 1..256, random and boundary '
-                   'operands), never counted as proof.',
+                   'operands, naive DFT / schoolbook oracles), never counted as proof; it found F6 (div_rem) and F7 (inv_mod_xn), both fixed.',
         remainder=['fft / ifft / coset variants / lde', 'polynomial mul / div_rem / divide_by_linear / interpolate', 'reverse_index_bits*, transpose_* (unsafe code)'],
     ),
     'C12': dict(
@@ -175,7 +182,9 @@ PROPS = {
                    'FRI verifier reach no failing index, slice, subtraction, shift, unwrap or assertion: every such operation in the extracted '
                    'bodies is a discharged obligation, and shape validation is the only place allowed to establish length facts.',
         level_note='Trusted: Verus+Z3; parameters from the common data satisfy params_ok/instances_ok; unverified callees (T10) assumed panic-free under '
-                   'their stated preconditions. Not covered yet: compressed proofs, serde decoding, STARK entry points.',
+                   'their stated preconditions. Byte decoders, compressed proofs and the STARK entry point are covered by the bounded stand-in only '
+                   '(c18_c17_decoders: truncations / bit flips / 0xff runs of encoded proofs and circuit data; c18_compressed_malformed: open finding F5; '
+                   'c18_stark_malformed: 38 surgeries x 3 trace sizes; c03_c18_surgery_*: every proof component altered, truncated, extended under 3 configurations).',
         remainder=['verify_compressed / decompress (HashMap keyed by proof data)', 'byte decoders (util/serialization)', 'starky verifier'],
     ),
     'C02': dict(
